@@ -402,6 +402,12 @@ def r7_shared(ctx):
 
 
 def run(ctx):
+    from ..report import Relabel
+    from .c02 import r1_keep_set
+    from .gcroles import DeleteRoles
+
+    # deleting one's own snapshot never removes chunks that snapshots of other users (same key family) still reference
+    r1_keep_set(Relabel(ctx, 'C06.R7'), DeleteRoles(ctx.corpus))
     r7_shared(ctx)
     r1_unlock(ctx)
     r2_delete_refusal(ctx)
